@@ -252,6 +252,8 @@ EW = {
 }
 try:
     EW[np.clip] = _clip
+    from numpy._core import umath as _um          # np.clip(a, lo, hi) with both bounds dispatches to this ufunc
+    EW[_um.clip] = _clip
 except Exception:   # pragma: no cover
     pass
 
